@@ -212,6 +212,14 @@ void fromfloat(char const* desc, int kid, int route /*0 fraction<T>(x), 1 make_f
     for (int q : {10000, 9973, 12345, 65536, 1000000}) { xs.push_back((F)(1.0L / q)); xs.push_back((F)(3.0L / q)); }
     for (int i = 0; i < 8; ++i) { F f = (F)mx; for (int j = 0; j < i; ++j) f = std::nextafter(f, (F)0); xs.push_back(f); xs.push_back(-f); xs.push_back(f / 2); xs.push_back((F)(mx / 3) - i); }
     for (int e : {-60, -40, -30, -20}) { xs.push_back((F)ldexpl(1.0L, e)); xs.push_back((F)ldexpl(0xd.6p0L, e)); }
+    // large non-dyadic values (integer part up to max/2, decimal / thirds fractions): the search is stopped by the numerator limit
+    for (long double scale = 2; scale < mx / 2; scale *= 3)
+        for (long double r : {1.0L / 3, 0.004L, 0.1L, 0.7L, 0.0972L, 0.5218L, 0.875L + 1.0L / 4096}) {
+            xs.push_back((F)(scale + r));
+            xs.push_back((F)-(scale + r));
+            xs.push_back((F)(scale * 1.37L + r));
+        }
+    size_t ndet = xs.size();  // everything above is deterministic (independent of VERIF_SEED)
     long n = env_long("VERIF_NFLOAT", 3000);
     for (long i = 0; i < n; ++i) {
         int e = (int)rng.below((uint64_t)(ehi - elo)) + elo;
@@ -219,7 +227,8 @@ void fromfloat(char const* desc, int kid, int route /*0 fraction<T>(x), 1 make_f
         if (i % 3 == 0) m = 1.0L + (long double)(rng.next() >> 54) / 1024.0L;
         xs.push_back((F)ldexpl((rng.next() & 1) ? m : -m, e));
     }
-    for (F x : xs) {
+    for (size_t xi = 0; xi < xs.size(); ++xi) {
+        F x = xs[xi];
         if (!std::isfinite(x) || fabsl((long double)x) > mx) continue;
         X num, den;
         g.tick_budget = 1000000;
@@ -240,7 +249,7 @@ void fromfloat(char const* desc, int kid, int route /*0 fraction<T>(x), 1 make_f
         char mm[100];
         snprintf(mm, sizeof mm, "%.90s", m);
         for (char* c = mm; *c; ++c) if (*c == ' ') *c = '_';
-        printf("G %d %La %s %s %s %ld %s 0x%lx\n", kid, (long double)x, kind_name(o.kind), num.str().c_str(), den.str().c_str(), ticks, mm, o.pc);
+        printf("%s %d %La %s %s %s %ld %s 0x%lx\n", xi < ndet ? "G" : "Gr", kid, (long double)x, kind_name(o.kind), num.str().c_str(), den.str().c_str(), ticks, mm, o.pc);
     }
     fflush(stdout);
     g.cur_kernel = "";
